@@ -292,7 +292,11 @@ func (g *gen) schema(doc string, d int, ord int, top bool) map[string]interface{
 			}
 			s[kw] = a
 		case "not", "additionalProperties", "additionalItems":
-			s[kw] = g.schema(doc, d+1, ord, false)
+			if kw != "not" && g.r.Intn(5) == 0 {
+				s[kw] = g.r.Intn(2) == 0 // the boolean form of the union
+			} else {
+				s[kw] = g.schema(doc, d+1, ord, false)
+			}
 		}
 	}
 	return s
@@ -605,7 +609,8 @@ func isSchemaPtr(p string) bool {
 }
 
 // ID kinds (DESIGN.md C04).
-var idSafe = []string{"http://ids.test/schemas/s%d.json", "other%d.json", "#frag%d", "file:///w/ids/abs%d.json", "../up/", "/abs/dir/", "http://ids.test/dir%d/"}
+var idSafe = []string{"http://ids.test/schemas/s%d.json", "other%d.json", "#frag%d", "file:///w/ids/abs%d.json", "../up/", "/abs/dir/", "http://ids.test/dir%d/",
+	"http://Ids.Test/Upper%d.json", "http://ids.test:80/port%d.json", "HTTP://ids.test/scheme%d.json"}
 var idAll = append(append([]string{}, idSafe...), "sub/", "deeper/dir/")
 
 func (g *gen) addIDs(w *model.World) {
